@@ -161,12 +161,18 @@ def _forms(fd, E, form, vals=None):
     if form == "per month":
         v = vals or [E.real("x_k"), E.real("x_f"), E.real("x_p")]
         return fd.Food(v[0], v[1], v[2], "billion kcals per month", "thousand tons per month", "thousand tons per month"), v
+    if form in ("month selected from a series", "series element"):
+        # the single-month form as the model produces it: one month taken out of a series (get_month / indexing), not built by the constructor
+        v = vals or [E.real("x_k"), E.real("x_f"), E.real("x_p")]
+        ser = fd.Food(np.array([v[0], v[0] + 1], dtype=object), np.array([v[1], v[1] + 1], dtype=object), np.array([v[2], v[2] + 1], dtype=object),
+                      "billion kcals each month", "thousand tons each month", "thousand tons each month")
+        return (ser.get_month(0) if form == "month selected from a series" else ser[0]), v
     v = vals or [E.reals("x_k", 2), E.reals("x_f", 2), E.reals("x_p", 2)]
     return fd.Food(np.array(v[0], dtype=object), np.array(v[1], dtype=object), np.array(v[2], dtype=object),
                    "billion kcals each month", "thousand tons each month", "thousand tons each month"), v
 
 
-SUFFIX = {"total": "", "per month": " per month", "each month": " each month"}
+SUFFIX = {"total": "", "per month": " per month", "each month": " each month", "month selected from a series": " per month", "series element": " per month"}
 
 
 def _bases(tab):
@@ -289,7 +295,10 @@ def replay_food(case, cx):
         fd.Food.conversions.set_nutrition_requirements(m["kcals_daily"], m["fat_daily"], m["protein_daily"], inc[0], inc[1], m["population"])
         kd, fa, pr, pop = m["kcals_daily"], m["fat_daily"], m["protein_daily"], m["population"]
         form = case["form"]
-        mk = lambda vals: (fd.Food(vals[0], vals[1], vals[2], "billion kcals" + SUFFIX[form], "thousand tons" + SUFFIX[form], "thousand tons" + SUFFIX[form]) if form != "each month"
+        def _sel(vals):
+            ser = fd.Food(np.array([vals[0], vals[0] + 1]), np.array([vals[1], vals[1] + 1]), np.array([vals[2], vals[2] + 1]), "billion kcals each month", "thousand tons each month", "thousand tons each month")
+            return ser.get_month(0) if form == "month selected from a series" else ser[0]
+        mk = lambda vals: _sel(vals) if form in ("month selected from a series", "series element") else (fd.Food(vals[0], vals[1], vals[2], "billion kcals" + SUFFIX[form], "thousand tons" + SUFFIX[form], "thousand tons" + SUFFIX[form]) if form != "each month"
                            else fd.Food(np.array([vals[0]] * 2), np.array([vals[1]] * 2), np.array([vals[2]] * 2), "billion kcals each month", "thousand tons each month", "thousand tons each month"))
         first = (lambda x: float(x[0])) if form == "each month" else float
         need = [kd * 30 * pop / 1e9, fa * 30 * pop / 1e9, pr * 30 * pop / 1e9]
@@ -384,6 +393,7 @@ def main(tier, seed, only=None):
     tab_cases = [dict(nutrient=n, kind="pairs", part=0, nparts=1) for n in range(3)] + \
                 [dict(nutrient=n, kind="triples", part=p, nparts=nparts) for n in range(3) for p in range(nparts)]
     forms = ["total", "per month", "each month"]
+    forms_food = forms + ["month selected from a series", "series element"]
     groups = [
         dict(name="tables_pairs_and_triples", fn="worker_tables", cases=tab_cases, replay=replay_tables,
              functions=["UnitConversions.set_nutrition_requirements", "get_kcal_multipliers", "get_fat_multipliers", "get_protein_multipliers",
@@ -392,9 +402,9 @@ def main(tier, seed, only=None):
              symbolic="population, kcals_daily, fat_daily, protein_daily", assumptions=["all four settings > 0 (population <= 1e11, kcal <= 1e5, fat/protein <= 1e4)",
                                                                                         "identities asserted to relative 1e-9"],
              stubs=["food.isinstance accepts SymReal as float"], outside=["floating point error of products beyond 1e-9 relative", "zero requirements (division by zero in the tables)"]),
-        dict(name="food_in_units", fn="worker_food", cases=[dict(form=f) for f in forms], replay=replay_food,
+        dict(name="food_in_units", fn="worker_food", cases=[dict(form=f) for f in forms_food], replay=replay_food,
              functions=["Food.in_units", "UnitConversions.get_conversion", "Food.__init__"],
-             bounds="3 forms (total, per month, each month with 2 months) x 6 target triples covering every base unit name in every nutrient position; round trip and one intermediate hop each",
+             bounds="5 forms (total, per month, each month with 2 months, one month taken out of a series by get_month and by indexing) x 6 target triples covering every base unit name in every nutrient position; round trip and one intermediate hop each",
              symbolic="the four settings and the quantity's numbers (>= 0)", assumptions=["settings > 0"], stubs=STUBS[:3] + ["food.isinstance accepts SymReal as float"], outside=["series longer than 2 months (conversion is elementwise)"]),
         dict(name="anchors", fn="worker_anchor", cases=[dict(form=f, inc=i) for f in forms for i in ([[True, True], [False, False]] + ([[True, False], [False, True]] if thorough else []))] +
              [dict(form=f, inc=i, earlier=e) for f in (forms if thorough else ["total"]) for i in ([True, True], [False, False]) for e in ([True, True], [False, False], [True, False])], replay=replay_food,
